@@ -346,6 +346,16 @@ class Parser:
                     if self.peek().kind == 'eof': self.err('unterminated item')
                     self.i += 1
                 self.skip_balanced()
+            elif w != 'macro_rules' and self.at('!', 1):
+                # an item-level macro invocation (`thread_local! { … }`, `lazy_static! { … }`): not a function; whatever it
+                # defines is unknown to the translator, so a function that uses it fails loudly when it is translated
+                self.i += 2
+                if self.peek().kind == 'id':
+                    self.i += 1
+                if not (self.at('(') or self.at('[') or self.at('{')):
+                    self.err('expected macro arguments')
+                self.skip_balanced()
+                self.eat(';')
             elif w == 'macro_rules':
                 self.i += 1; self.expect('!'); self.ident()
                 self.skip_balanced()
